@@ -1,0 +1,65 @@
+//go:build verif
+
+package table
+
+// Thin wrappers for the verification harness (/verif). They only call production code.
+
+import (
+	"github.com/dgraph-io/badger/v4/fb"
+	"github.com/dgraph-io/badger/v4/y"
+)
+
+// VerifBlockInfo describes block i of an opened table as recorded in the index and as read
+// by Table.block.
+type VerifBlockInfo struct {
+	BaseKey    []byte
+	Offset     int
+	Len        int
+	Raw        []byte // file bytes of the block (compressed/encrypted form)
+	NumEntries int
+	Err        error
+}
+
+// VerifBlocks returns the index entries and raw bytes of all blocks.
+func (t *Table) VerifBlocks() []VerifBlockInfo {
+	var out []VerifBlockInfo
+	for i := 0; i < t.offsetsLength(); i++ {
+		var ko fb.BlockOffset
+		y.AssertTrue(t.offsets(&ko, i))
+		bi := VerifBlockInfo{BaseKey: y.Copy(ko.KeyBytes()), Offset: int(ko.Offset()), Len: int(ko.Len())}
+		raw, err := t.read(bi.Offset, bi.Len)
+		if err == nil {
+			bi.Raw = y.Copy(raw)
+		}
+		blk, err := t.block(i, false)
+		if err != nil {
+			bi.Err = err
+		} else {
+			bi.NumEntries = len(blk.entryOffsets)
+			blk.decrRef()
+		}
+		out = append(out, bi)
+	}
+	return out
+}
+
+// Internal (bidirectional) iterator methods.
+func (itr *Iterator) VerifSeekToFirst()         { itr.seekToFirst() }
+func (itr *Iterator) VerifSeekToLast()          { itr.seekToLast() }
+func (itr *Iterator) VerifSeek(key []byte)      { itr.seek(key) }
+func (itr *Iterator) VerifSeekForPrev(k []byte) { itr.seekForPrev(k) }
+func (itr *Iterator) VerifNext()                { itr.next() }
+func (itr *Iterator) VerifPrev()                { itr.prev() }
+
+// VerifState exposes the position fields of the iterator.
+func (itr *Iterator) VerifState() (bpos int, dataLen int, err error) {
+	return itr.bpos, len(itr.bi.data), itr.err
+}
+
+// VerifCur exposes whether the concat iterator has a current table iterator, and its error.
+func (s *ConcatIterator) VerifCur() (isNil bool, err error) {
+	if s.cur == nil {
+		return true, nil
+	}
+	return false, s.cur.err
+}
